@@ -37,7 +37,14 @@ VF_PROPS = [
     ("woval", "int", None, "setWoval", None, False),
     # name ending in a digit next to an id ending in a digit: function-name prefix collisions
     ("x1", "int", "x1", "setX1", "x1Changed", False),
+    # names that spell <gadget property><Member> of the inherited QWidget::font: sub-binding / property name collisions
+    ("fontFamily", "QString", "fontFamily", "setFontFamily", "fontFamilyChanged", False),
+    ("fontBold", "bool", "fontBold", "setFontBold", "fontBoldChanged", False),
+    # Qt 6 style bindable property without notify signal: reading it in a binding is unobservable for qmluic
+    ("bindonly", "int", "bindonly", "setBindonly", None, False),
 ]
+
+VF_BINDABLE = {"bindonly": "bindableBindonly"}
 
 # notify signals carrying the new value (default-argument family is given for some)
 NOTIFY_WITH_ARG = {"bvalChanged": "bool", "svalChanged": "QString", "ival2Changed": "int"}
@@ -57,6 +64,8 @@ def _prop(name, ty, read, write, notify, constant):
         d["write"] = write
     if notify:
         d["notify"] = notify
+    if name in VF_BINDABLE:
+        d["bindable"] = VF_BINDABLE[name]
     return d
 
 
